@@ -249,56 +249,90 @@ func main() {
 	sem := make(chan struct{}, *jobs)
 	var mu sync.Mutex
 	var harnessErrs []string
-	for i, u := range units {
-		wg.Add(1)
-		go func(i int, u unitInfo) {
-			defer wg.Done()
-			sem <- struct{}{}
-			defer func() { <-sem }()
-			outf := filepath.Join(work, fmt.Sprintf("res-%d.json", i))
-			args := []string{"-prop", prop, "-tier", *tier, "-unit", u.Name, "-out", outf, "-deadline", fmt.Sprint(perUnit), "-shard", fmt.Sprint(u.shard), "-nshards", fmt.Sprint(u.Shards)}
-			c := exec.Command(ha, args...)
-			c.Dir = work
-			c.Env = env(work, "VERIF_TASK_BIN="+taskBin, "VERIF_SEED="+fmt.Sprint(seed), "VERIF_WCACHE="+filepath.Join(verif, "wcache", prop+"-"+*tier))
-			if os.Getenv("VERIF_REPO") != "" {
-				c.Env = append(c.Env, "VERIF_WCACHE_RO=1") // runs against another tree never write the cache
-			}
-			if cfg.Race {
-				c.Env = append(c.Env, "GORACE=halt_on_error=0 log_path="+filepath.Join(work, fmt.Sprintf("race-%d", i)), "VERIF_RACE_LOG="+filepath.Join(work, fmt.Sprintf("race-%d", i)))
-			}
-			ob, err := c.CombinedOutput()
-			var r unitResult
-			b, rerr := os.ReadFile(outf)
-			if rerr == nil {
-				rerr = json.Unmarshal(b, &r)
-			}
-			mu.Lock()
-			defer mu.Unlock()
-			if rerr != nil {
-				// the code under test recursed until the Go runtime killed the worker: a verdict
-				// about that code (unbounded recursion), not a harness failure
-				if fn := stackOverflowIn(string(ob)); fn != "" {
-					v := violation{Property: prop, Clause: "stack_overflow", Sig: prop + ":stack_overflow:" + fn, Scenario: u.Name,
-						Detail: "an execution of this scenario recursed without bound (" + fn + ") until the goroutine stack limit was exceeded and the process died",
-						Trace:  []string{tail(string(ob), 1500)}}
-					results[i] = &unitResult{Unit: u.Name, Stats: map[string]any{"scenario": u.Name, "executions": 1.0, "exhaustive": false, "note": "worker died: stack overflow of the code under test"},
-						Violations: []violation{v}, SigCounts: map[string]int{v.Sig: 1}}
+	todo := make([]int, len(units))
+	for i := range units {
+		todo[i] = i
+	}
+	for round := 0; round < 4 && len(todo) > 0; round++ {
+		for _, i := range todo {
+			u := units[i]
+			wg.Add(1)
+			go func(i int, u unitInfo) {
+				defer wg.Done()
+				sem <- struct{}{}
+				defer func() { <-sem }()
+				outf := filepath.Join(work, fmt.Sprintf("res-%d.json", i))
+				args := []string{"-prop", prop, "-tier", *tier, "-unit", u.Name, "-out", outf, "-deadline", fmt.Sprint(perUnit), "-shard", fmt.Sprint(u.shard), "-nshards", fmt.Sprint(u.Shards)}
+				c := exec.Command(ha, args...)
+				c.Dir = work
+				c.Env = env(work, "VERIF_TASK_BIN="+taskBin, "VERIF_SEED="+fmt.Sprint(seed), "VERIF_WCACHE="+filepath.Join(verif, "wcache", prop+"-"+*tier))
+				if os.Getenv("VERIF_REPO") != "" {
+					c.Env = append(c.Env, "VERIF_WCACHE_RO=1") // runs against another tree never write the cache
+				}
+				if cfg.Race {
+					c.Env = append(c.Env, "GORACE=halt_on_error=0 log_path="+filepath.Join(work, fmt.Sprintf("race-%d", i)), "VERIF_RACE_LOG="+filepath.Join(work, fmt.Sprintf("race-%d", i)))
+				}
+				ob, err := c.CombinedOutput()
+				var r unitResult
+				b, rerr := os.ReadFile(outf)
+				if rerr == nil {
+					rerr = json.Unmarshal(b, &r)
+				}
+				mu.Lock()
+				defer mu.Unlock()
+				if rerr != nil {
+					// the code under test recursed until the Go runtime killed the worker: a verdict
+					// about that code (unbounded recursion), not a harness failure
+					if fn := stackOverflowIn(string(ob)); fn != "" {
+						v := violation{Property: prop, Clause: "stack_overflow", Sig: prop + ":stack_overflow:" + fn, Scenario: u.Name,
+							Detail: "an execution of this scenario recursed without bound (" + fn + ") until the goroutine stack limit was exceeded and the process died",
+							Trace:  []string{tail(string(ob), 1500)}}
+						results[i] = &unitResult{Unit: u.Name, Stats: map[string]any{"scenario": u.Name, "executions": 1.0, "exhaustive": false, "note": "worker died: stack overflow of the code under test"},
+							Violations: []violation{v}, SigCounts: map[string]int{v.Sig: 1}}
+						return
+					}
+					os.WriteFile(filepath.Join(filepath.Dir(work), "last-worker-crash.txt"), ob, 0o644)
+					harnessErrs = append(harnessErrs, fmt.Sprintf("unit %s: no result (%v): %s", u.Name, err, tail(string(ob), 2000)))
 					return
 				}
-				os.WriteFile(filepath.Join(filepath.Dir(work), "last-worker-crash.txt"), ob, 0o644)
-				harnessErrs = append(harnessErrs, fmt.Sprintf("unit %s: no result (%v): %s", u.Name, err, tail(string(ob), 2000)))
-				return
+				if r.HarnessErr != "" {
+					harnessErrs = append(harnessErrs, fmt.Sprintf("unit %s: %s", u.Name, r.HarnessErr))
+				}
+				if u.Shards > 1 {
+					r.Shard = fmt.Sprintf("%d/%d", u.shard, u.Shards)
+				}
+				results[i] = &r
+			}(i, u)
+		}
+		wg.Wait()
+		// a shard that found a new shared object while exploring its share of a split unit ran with a
+		// W set the other shards did not have (their numbering of the subtrees may differ): re-run
+		// all shards of such a unit, which now start from the merged W cache, until none of them does
+		todo = todo[:0]
+		if os.Getenv("VERIF_REPO") == "" && len(harnessErrs) == 0 {
+			again := map[string]bool{}
+			for i, r := range results {
+				if r != nil && units[i].Shards > 1 {
+					if n, ok := r.Stats["w_restarts_in_split_pass"].(float64); ok && n > 0 {
+						again[units[i].Name] = true
+					}
+				}
 			}
-			if r.HarnessErr != "" {
-				harnessErrs = append(harnessErrs, fmt.Sprintf("unit %s: %s", u.Name, r.HarnessErr))
+			for i := range units {
+				if again[units[i].Name] {
+					todo = append(todo, i)
+				}
 			}
-			if u.Shards > 1 {
-				r.Shard = fmt.Sprintf("%d/%d", u.shard, u.Shards)
+			if len(todo) > 0 && round == 3 {
+				for _, i := range todo {
+					if results[i] != nil {
+						results[i].Stats["exhaustive"] = false
+						results[i].Stats["note"] = fmt.Sprint(results[i].Stats["note"]) + "shared-object set still growing after 3 re-runs of the split pass; "
+					}
+				}
 			}
-			results[i] = &r
-		}(i, u)
+		}
 	}
-	wg.Wait()
 	if len(harnessErrs) > 0 {
 		for _, h := range harnessErrs {
 			fmt.Fprintln(os.Stderr, "HARNESS-ERROR:", h)
